@@ -366,6 +366,26 @@ def numericOk (m : RMatrix) (lvl : Level) (attr value : Str) : Bool :=
       | none => false
     else true
 
+/-- the parts of a text between underscores -/
+def splitUnderscores (s : Str) : List Str :=
+  let rec go : Str → Str → List Str
+    | [], cur => [cur.reverse]
+    | c :: r, cur => if c == '_' then cur.reverse :: go r [] else go r (c :: cur)
+  go s []
+
+/-- Python's `int(text)` on the key of a value table: blanks at the ends, an optional sign, ASCII digits, single underscores between
+digits (digits of other scripts are outside the model) -/
+def pyIntKey (s : Str) : Option Int :=
+  let t := stripWs s
+  let body : Bool × Str := match t with
+    | '-' :: u => (true, u)
+    | '+' :: u => (false, u)
+    | u => (false, u)
+  let groups := splitUnderscores body.2
+  if groups.all (fun g => !g.isEmpty && g.all isDigit) then
+    (digitsToNat groups.flatten).map fun n => if body.1 then -(n : Int) else (n : Int)
+  else none
+
 /-- `frame.add_signal_group(name, id, names)`: the members are the named signals that exist, each once -/
 def groupOf (f : RFrame) (g : GroupLine) : RGroup :=
   { name := g.name, id := g.groupId,
@@ -453,7 +473,14 @@ def applyCore (m : RMatrix) : Item → RMatrix
       | some si => m.modFrame fi fun f => f.modSig si fun s => { s with values := v.entries.foldl (fun acc (k, t) => assocSet acc k t) s.values }
       | none => m
     | none => m
-  | .vt v => { m with tables := assocSetTable m.tables v }
+  | .vt v =>
+    -- `value_hash[key.strip()] = text` entry by entry, then `add_value_table`: `{int(k): v}` - a key that is no number raises
+    let byText := v.entries.foldl (fun acc (e : Str × Str) => assocSet acc e.1 e.2) ([] : List (Str × Str))
+    match byText.mapM (fun (e : Str × Str) => (pyIntKey e.1).map fun i => (i, e.2)) with
+    | some es =>
+      let byInt := es.foldl (fun acc (e : Int × Str) => assocSet acc e.1 e.2) ([] : List (Int × Str))
+      { m with tables := assocSetTable m.tables ⟨v.name, byInt.map fun e => (intDigits e.1, e.2)⟩ }
+    | none => m.err
   | .adef d => addDefine m d
   | .ba b =>
     match b.target with
